@@ -442,6 +442,15 @@ func (in *inliner) closures(fd *ast.FuncDecl) {
 					}
 					return false
 				}
+			case *ast.AssignStmt:
+				// `_ = f` (left by an earlier expansion to keep the local used) is not a use
+				if len(x.Lhs) == 1 && len(x.Rhs) == 1 {
+					if l, isId := x.Lhs[0].(*ast.Ident); isId && l.Name == "_" {
+						if r, isId := ast.Unparen(x.Rhs[0]).(*ast.Ident); isId && in.info.Uses[r] == obj {
+							return false
+						}
+					}
+				}
 			case *ast.GoStmt:
 				if f, isId := ast.Unparen(x.Call.Fun).(*ast.Ident); isId && in.info.Uses[f] == obj {
 					return false // `go f(...)` keeps the call
@@ -909,6 +918,38 @@ func (in *inliner) one(s ast.Stmt) []ast.Stmt {
 		// the label must keep naming the statement itself
 		return []ast.Stmt{&ast.LabeledStmt{Label: ast.NewIdent(v.Label.Name), Stmt: in.stmt(v.Stmt, nil, false)}}
 	case *ast.AssignStmt:
+		// `n, err := f()` at the top level of a helper whose parameter or named
+		// result is err assigns that err; once the body stands in a nested block
+		// of the caller the same statement would declare a new one. The reused
+		// names receive the value through a temporary instead.
+		var reused []int
+		if v.Tok == token.DEFINE && len(in.frames) > 0 {
+			for i, l := range v.Lhs {
+				if id, ok := l.(*ast.Ident); ok && id.Name != "_" && in.info.Defs[id] == nil {
+					if _, mapped := in.frames[len(in.frames)-1][in.info.Uses[id]]; mapped {
+						reused = append(reused, i)
+					}
+				}
+			}
+		}
+		if len(reused) > 0 {
+			cl, ok := in.stmt(s, nil, false).(*ast.AssignStmt)
+			if !ok || len(cl.Lhs) != len(v.Lhs) {
+				in.failed = "cannot rewrite a := that reuses a result of the helper"
+				return []ast.Stmt{in.stmt(s, nil, true)}
+			}
+			out := []ast.Stmt{cl}
+			for _, i := range reused {
+				tmp := in.fresh(v.Lhs[i].(*ast.Ident).Name + "_h")
+				target := cl.Lhs[i]
+				cl.Lhs[i] = ast.NewIdent(tmp)
+				out = append(out, &ast.AssignStmt{Lhs: []ast.Expr{target}, Tok: token.ASSIGN, Rhs: []ast.Expr{ast.NewIdent(tmp)}})
+			}
+			if len(reused) == len(v.Lhs) {
+				cl.Tok = token.DEFINE
+			}
+			return out
+		}
 		if len(v.Rhs) == 1 && (v.Tok == token.ASSIGN || v.Tok == token.DEFINE) {
 			if call, fd := in.helperCall(v.Rhs[0]); call != nil {
 				if out := in.expandAssign(v.Lhs, v.Tok == token.DEFINE, call, fd); out != nil {
@@ -1590,14 +1631,18 @@ func (in *inliner) inlineBody(fd *ast.FuncDecl, call *ast.CallExpr, targets []as
 // fresh tells that every target was declared by this statement, so a named
 // result may be the target itself.
 func (in *inliner) inlineBodyR(fd *ast.FuncDecl, call *ast.CallExpr, targets []ast.Expr, tail, fresh bool, r repl) []ast.Stmt {
+	// the names to keep clear of belong to this call: binding the arguments may
+	// expand other helpers (a closure argument that calls one), which must not
+	// consume them
+	clash := in.clash
+	in.clash = nil
 	fr, pre := in.bind(fd, call, r, false)
 	if fr == nil {
 		return nil
 	}
-	for _, n := range in.clash {
+	for _, n := range clash {
 		in.renameLocals(fd, n, fr)
 	}
-	in.clash = nil
 	// named results
 	var named []*ast.Ident
 	var resTypes []ast.Expr
@@ -1675,6 +1720,12 @@ func (in *inliner) inlineBodyR(fd *ast.FuncDecl, call *ast.CallExpr, targets []a
 	}
 	if out, ok := tailify(body, leaf); ok {
 		return append(pre, out...)
+	}
+	if tail {
+		// every path of the helper returns and its returns are the caller's: the
+		// body stands as a block (no one-trip loop is needed, and the block keeps
+		// the enclosing function's last statement a terminating one)
+		return append(pre, &ast.BlockStmt{List: in.breakify(body, leaf, "")})
 	}
 	// returns inside loops or in the middle of branches: a labelled one-trip loop
 	label := in.fresh("L")
@@ -1878,6 +1929,13 @@ func (in *inliner) breakStmt(s ast.Stmt, leaf func(*ast.ReturnStmt) []ast.Stmt, 
 	bl := func(l []ast.Stmt) []ast.Stmt { return in.breakify(l, leaf, label) }
 	switch v := s.(type) {
 	case *ast.ReturnStmt:
+		if label == "" {
+			// the call was the operand of a return: the helper's returns are the caller's
+			if l := leaf(v); len(l) == 1 {
+				return l[0]
+			}
+			return &ast.BlockStmt{List: leaf(v)}
+		}
 		return &ast.BlockStmt{List: append(leaf(v), &ast.BranchStmt{Tok: token.BREAK, Label: ast.NewIdent(label)})}
 	case *ast.BlockStmt:
 		v.List = bl(v.List)
